@@ -35,7 +35,7 @@ open C17 (Determined SameObs determined determined_checked)
 
 /-! ## group 2 -/
 theorem kernel_profile_indep (p1 p2 : Profile) (tm : Mode) (mode : Option Mode) (n d : Int)
-    (hn : I128_MIN < n ∧ n ≤ I128_MAX) (hd : I128_MIN < d ∧ d ≤ I128_MAX) (hd0 : d ≠ 0) :
+    (hn : I128_MIN < n ∧ n ≤ I128_MAX) (hd : I128_MIN ≤ d ∧ d ≤ I128_MAX) (hd0 : d ≠ 0) :
     i128DivRounded p1 tm n d mode = i128DivRounded p2 tm n d mode := by
   rw [C05.kernel_spec p1 tm mode n d hn hd hd0, C05.kernel_spec p2 tm mode n d hn hd hd0]
 
